@@ -75,7 +75,21 @@ func resultNames(c *Contract, sig *types.Signature) []string {
 }
 
 // call translates a call (also used for defer and go).
+// call applies the call rule, then copies back the cells that stand in for interior addresses
+// passed to the callee inside an interface value (copy-in/copy-out, see MakeInterface).
 func (fg *FG) call(st *State, cc *ssa.CallCommon, in ssa.Instruction, resultOf ssa.Value) []Val {
+	res := fg.call0(st, cc, in, resultOf)
+	for _, a := range cc.Args {
+		if co, ok := fg.copyOut[a]; ok {
+			fg.store(st, co.orig, fg.load(st, co.cell))
+		}
+	}
+	return res
+}
+
+type copyOutInfo struct{ orig, cell *Loc }
+
+func (fg *FG) call0(st *State, cc *ssa.CallCommon, in ssa.Instruction, resultOf ssa.Value) []Val {
 	sig := cc.Signature()
 	// builtins
 	if b, ok := cc.Value.(*ssa.Builtin); ok {
@@ -123,6 +137,19 @@ func (fg *FG) call(st *State, cc *ssa.CallCommon, in ssa.Instruction, resultOf s
 	}
 	for _, a := range cc.Args {
 		args = append(args, fg.val(a))
+	}
+	// a contract specialised for the dynamic type of an interface argument: key<T>
+	if callee != nil {
+		for _, a := range args {
+			if a.DynTy != nil {
+				k := ckey + "<" + types.TypeString(a.DynTy, func(p *types.Package) string { return p.Name() }) + ">"
+				if sc := fg.g.ct.C[k]; sc != nil {
+					c = sc
+					ckey = k
+					break
+				}
+			}
+		}
 	}
 	if c == nil {
 		if callee != nil && callee.Blocks != nil && fg.g.inRepo(callee) && fg.g.canInline(callee) {
@@ -402,6 +429,12 @@ func (fg *FG) dynCall(st *State, cc *ssa.CallCommon, in ssa.Instruction, f Val) 
 		}
 		return fg.applyContract(st, c, nil, sig, args, in, extra)
 	}
+	// a named function type with a contract of its own (e.g. context.CancelFunc)
+	if nt, ok := types.Unalias(cc.Value.Type()).(*types.Named); ok && nt.Obj().Pkg() != nil {
+		if c := fg.g.ct.C[nt.Obj().Pkg().Name()+"."+nt.Obj().Name()]; c != nil {
+			return fg.applyContract(st, c, nil, sig, args, in, map[string]Val{"self": f})
+		}
+	}
 	fg.fail("call through function value %q without a functype declaration", name)
 	return nil
 }
@@ -599,6 +632,9 @@ func (fg *FG) specLoc(x *SExpr, env *Env) *Loc {
 	case SSel:
 		a := env.tr(x.A)
 		if a.Ty == nil {
+			if a.Sort == "Iface" {
+				a = Val{T: fmt.Sprintf("(i.val %s)", a.T), Sort: "Int"}
+			}
 			if a.Sort == "Int" {
 				if ty, ok := fg.g.ct.GhostFields["any."+x.Name]; ok {
 					t, srt := env.resolveType(ty)
